@@ -35,6 +35,46 @@ LEVELS = [(1, 2), (1, 3), (2, 3), (2, 4)]
 DW_VERSIONS = [2, 3, 6, 7, 8]
 DW_VERSION_MIX = [2] + [3, 6, 7, 8] * 2          # version 2 is a known finding: keep it, but rarely
 TOL = 1e-9
+# scale extremes (catalogue e): far from the origin on both sides (|a|/(b-a) = 8192) and tiny intervals (2^-40); dyadic,
+# so the exact-rational oracle still applies
+EXTREME_DOMAINS = [(8192.0, 8193.0), (-8192.0, -8191.0), (16384.0, 16388.0), (0.0, 2.0 ** -40), (1.0, 1.0 + 2.0 ** -40)]
+
+
+def harden_options(r, case, strat, thorough):
+    """options of the hardening pass (catalogue of missed change patterns), each drawn with a small probability so that
+    the budgets stay: toggle (l), resume / rerun (h), scale (e), sibling (b) -- all part of the case dict = replayable"""
+    dim = case["dim"]
+    if r.random() < 0.08 and (dim == 2 or strat == "dw"):
+        # (dim 3 extend-split on far boxes refines nearly every area in every round with the library's estimator: too slow)
+        ext = r.choice(EXTREME_DOMAINS)
+        case["dom"] = [list(ext) if (r.random() < 0.6 or d == 0) else case["dom"][d] for d in range(dim)]
+        case["scale"] = "extreme"
+    x = r.random()
+    case["toggle"] = "nocache" if x < 0.08 else ("reset" if x < 0.16 else None)
+    case["resume"] = r.random() < 0.2
+    case["rerun"] = r.random() < 0.15
+    case["queries"] = r.random() < 0.5
+    if r.random() < 0.1:
+        other = r.choice(["dwraise", "es", "cell", strat if strat in ("es", "cell") else "dwraise"])
+        sub = GENERATORS[other](FakeCtx(r), False)
+        for k in ("sibling", "sibling_at", "rerun", "resume", "reeval", "queries"):
+            sub.pop(k, None)
+        sub["rounds"] = [1, 1] if isinstance(sub["rounds"], list) else 2
+        if sub["strategy"] == case["strategy"] and sub["strategy"] in ("es", "cell"):
+            # equal keys (same box, same start level), different configuration
+            sub["dim"], sub["dom"], sub["peak"] = dim, [list(x) for x in case["dom"]], list(case["peak"])
+            if sub["strategy"] == "cell":
+                sub["lmin"] = sub["lmax"] = case["lmin"]
+        case["sibling"] = sub
+        case["sibling_at"] = 1
+    return case
+
+
+class FakeCtx:
+    """generators only use ctx.rng"""
+
+    def __init__(self, rng):
+        self.rng = rng
 
 
 # ------------------------------------------------------------------------------------------------ test functions
@@ -256,6 +296,9 @@ def quiet():
 
 
 # ------------------------------------------------------------------------------------------------ checks shared
+_PROCESS_HISTORY = {"cell": [], "es": [], "dw": [], "current_group": None}
+
+
 class Recorder:
     """collects what happened in one history"""
 
@@ -273,22 +316,33 @@ class Recorder:
             t = dict(self.tags, kind=kind)
             if extra_tags:
                 t.update(extra_tags)
-            self.ctx.violation(probe, t, self.case, detail)
+            hist = _PROCESS_HISTORY.get(_PROCESS_HISTORY.get("current_group") or "", [])
+            case = dict(self.case, process_history=list(hist)) if hist else self.case
+            self.ctx.violation(probe, t, case, detail)
 
     def corr(self, obs, detail):
         self.ok = False
         self.ctx.corr_break("C04/" + obs, self.case, detail)
 
 
-def cmp_float_frac(v, ex):
-    return abs(float(v) - float(ex)) <= TOL * max(1.0, abs(float(ex)))
+def cmp_float_frac(v, ex, floor=1.0):
+    return abs(float(v) - float(ex)) <= TOL * max(floor, abs(float(ex)))
+
+
+def int_floor(dom):
+    """magnitude below which an integral is compared absolutely: the volume of the box if that is below 1 (tiny boxes:
+    a fixed absolute tolerance would make the comparison vacuous)"""
+    vol = 1.0
+    for (lo, hi) in dom:
+        vol *= float(hi) - float(lo)
+    return min(1.0, vol)
 
 
 def oracle_integrals(rec, probe, stop, result, comps, dom):
     bad = []
     for k, terms in enumerate(comps):
         ex = comp_exact_int(terms, dom)
-        if not cmp_float_frac(result[k + 1], ex):
+        if not cmp_float_frac(result[k + 1], ex, int_floor(dom)):
             bad.append({"component": k, "terms": terms_str(terms), "result": float(result[k + 1]), "exact": frac_str(ex)})
     rec.ctx.count("oracle_integrals", len(comps))
     if bad:
@@ -342,7 +396,7 @@ def gen_dw_case(ctx, thorough):
     modified = (not boundary) and r.random() < 0.45
     est = "scripted" if r.random() < 0.75 else "volume"
     nstops = r.randint(2, 3) if not thorough else r.randint(2, 4)
-    return {"strategy": "dw", "dim": dim, "lmin": lmin, "lmax": lmax,
+    case = {"strategy": "dw", "dim": dim, "lmin": lmin, "lmax": lmax,
             "dom": [list(r.choice(DOMAINS)) for _ in range(dim)],
             "version": r.choice(DW_VERSION_MIX), "rebalancing": r.random() < 0.25, "boundary": boundary, "modified": modified,
             "margin": r.choice([0.9, 0.9, 0.6]), "estimator": est, "seed": r.randrange(10 ** 9),
@@ -350,6 +404,9 @@ def gen_dw_case(ctx, thorough):
             "per_level": 2 if not thorough else 3, "peak": [r.randint(1, 15) / 16 for _ in range(dim)], "sharp": r.choice([4, 40, 400]),
             # scripted estimator only: every stop's result [3] comes from evaluate_final_combi()
             "reeval": est == "scripted" and r.random() < 0.3}
+    if thorough and r.random() < 0.05:
+        case.update({"dim": 4, "lmin": 1, "lmax": 2, "dom": [list(r.choice(DOMAINS)) for _ in range(4)], "peak": [r.randint(1, 15) / 16 for _ in range(4)], "per_level": 1})
+    return harden_options(r, case, "dw", thorough)
 
 
 def gen_dwcorner_case(ctx, thorough):
@@ -468,7 +525,7 @@ def check_subtraction_clip(ctx, drv, rec, sa, case, stop, thr_cache):
                 return
 
 
-def run_dw(ctx, drv, case):
+def run_dw(ctx, drv, case, report_case=None):
     from sparseSpACE.Grid import GlobalTrapezoidalGrid
     from sparseSpACE.GridOperation import Integration
     from sparseSpACE.ErrorCalculator import ErrorCalculatorSingleDimVolumeGuided
@@ -478,8 +535,9 @@ def run_dw(ctx, drv, case):
     rng = random.Random(case["seed"])
     boundary, modified = case["boundary"], case["modified"]
     tags = {"strategy": "dw", "version": case["version"], "rebalancing": case["rebalancing"], "boundary": boundary,
-            "modified": modified, "estimator": case["estimator"], "lmin": lmin, "dim": dim, "span": lmax - lmin}
-    rec = Recorder(ctx, case, tags)
+            "modified": modified, "estimator": case["estimator"], "lmin": lmin, "dim": dim, "span": lmax - lmin,
+            "scale": case.get("scale", "std")}
+    rec = Recorder(ctx, report_case or case, tags)
     hats = gen_hat_comps(rng, dim, lmin, lmax, interior_only=not boundary, per_level=case["per_level"], ncombo=3)
     lin = gen_multilinear_comps(rng, dim, 2, 1) if modified else []
     # with the modified basis: integrals of (multi)linear functions, interpolation of interior hats;
@@ -491,16 +549,21 @@ def run_dw(ctx, drv, case):
     a = np.array([x[0] for x in dom])
     b = np.array([x[1] for x in dom])
     rule = "std" if boundary else ("mod" if modified else "nobd")
-    ok = drv.ask("dw %d %d %d %s" % (dim, lmin, lmax, rule)) == "ok"
-    for d in range(dim):
-        ok = drv.ask("dom %d %s %s" % (d, frac_str(dom[d][0]), frac_str(dom[d][1]))) == "ok" and ok
-    if not ok:
+
+    def setup_driver():
+        ok = drv.ask("dw %d %d %d %s" % (dim, lmin, lmax, rule)) == "ok"
+        for d in range(dim):
+            ok = drv.ask("dom %d %s %s" % (d, frac_str(dom[d][0]), frac_str(dom[d][1]))) == "ok" and ok
+        return ok
+    if not setup_driver():
         rec.corr("driver-setup", {"impl": "ok", "model": "rejected"})
         return rec
     exc = None
     res = None
     try:
         with quiet():
+            if case.get("toggle") == "nocache":
+                f.deactivate_caching()
             grid = GlobalTrapezoidalGrid(a, b, boundary=boundary, modified_basis=modified)
             op = Integration(f, grid=grid, dim=dim, log_level=50, print_level=50)
             op.validation_set = None
@@ -528,12 +591,22 @@ def run_dw(ctx, drv, case):
     thr_cache = {}
     for stop, nr in enumerate(case["rounds"]):
         target += nr
+        if case.get("sibling") and stop == case.get("sibling_at") and report_case is None:
+            run_sibling(ctx, drv, case)
+            setup_driver()
         try:
             with quiet():
+                if case.get("toggle") == "reset" and stop > 0:
+                    f.reset_dictionary()
                 if case["estimator"] == "scripted":
                     ec.stop_round = target
                     if stop == 0:
                         res = sa.performSpatiallyAdaptiv(lmin, lmax, ec, tol=1e-300, print_output=False, reevaluate_at_end=bool(case.get("reeval")))
+                    elif case.get("resume") and stop == 1:
+                        # catalogue h: resume through performSpatiallyAdaptiv(refinement_container=<the object's own container>)
+                        res = sa.performSpatiallyAdaptiv(lmin, lmax, ec, tol=1e-300, print_output=False, reevaluate_at_end=bool(case.get("reeval")),
+                                                         refinement_container=sa.refinement)
+                        ctx.count("dw_resumes")
                     else:
                         res = sa.continue_adaptive_refinement(tol=1e-300)
                 else:
@@ -592,7 +665,7 @@ def run_dw(ctx, drv, case):
         for k, terms in enumerate(comps):
             if k in int_comps:
                 m, err = model_sum(drv, "dwint", terms)
-                if m is None or not cmp_float_frac(result[k + 1], m):
+                if m is None or not cmp_float_frac(result[k + 1], m, int_floor(dom)):
                     rec.corr("dw/combined-integral", {"stop": stop, "terms": terms_str(terms), "impl": float(result[k + 1]), "model": frac_str(m) if m is not None else err})
                     break
         for p, v in zip(pts[:3], vals[:3]):
@@ -620,6 +693,20 @@ def run_dw(ctx, drv, case):
             ctx.count("dw_keeps_false_but_sampled_hats_exact")
         if not rec.ok:
             break
+    if rec.ok and exc is None and case.get("queries"):
+        extra_queries(rec, "dw-exact", sa, op, f, comps, dom, a, b, rng, int_comps, val_comps)
+    if rec.ok and exc is None and case.get("rerun") and case["estimator"] == "scripted":
+        # catalogue h: a second performSpatiallyAdaptiv on the same object starts from scratch and is exact again
+        try:
+            with quiet():
+                ec.round = 0
+                rounds_done[0] = 0
+                ec.stop_round = 1
+                res = sa.performSpatiallyAdaptiv(lmin, lmax, ec, tol=1e-300, print_output=False)
+            ctx.count("dw_second_runs")
+            oracle_integrals_subset(rec, "dw-exact", "second-run-on-same-object", np.asarray(res[3], dtype=float), comps, dom, int_comps)
+        except Exception as e:
+            rec.violation("dw-exception", "exception", {"exception": repr(e)[:300], "where": "second run on the same object"}, {"exception": type(e).__name__})
     ctx.count("dw_v%d_rebal%d_bnd%d_mod%d" % (case["version"], case["rebalancing"], boundary, modified))
     ctx.count("dw_est_" + case["estimator"])
     return rec
@@ -645,7 +732,7 @@ def lost_level_search(sa, TestFunction, dom, a, b, level, interior_only, rng, li
             total = total + cg.coefficient * np.asarray(sa.grid.integrate(f, cg.levelvector, a, b), dtype=float)
     for k, terms in enumerate(comps):
         ex = comp_exact_int(terms, dom)
-        if not cmp_float_frac(total[k + 1], ex):
+        if not cmp_float_frac(total[k + 1], ex, int_floor(dom)):
             return {"terms": terms_str(terms), "result": float(total[k + 1]), "exact": frac_str(ex)}
     return None
 
@@ -656,7 +743,7 @@ def oracle_integrals_subset(rec, probe, stop, result, comps, dom, which):
         if k not in which:
             continue
         ex = comp_exact_int(terms, dom)
-        if not cmp_float_frac(result[k + 1], ex):
+        if not cmp_float_frac(result[k + 1], ex, int_floor(dom)):
             bad.append({"component": k, "terms": terms_str(terms), "result": float(result[k + 1]), "exact": frac_str(ex)})
     rec.ctx.count("oracle_integrals", len(which))
     if bad:
@@ -665,6 +752,76 @@ def oracle_integrals_subset(rec, probe, stop, result, comps, dom, which):
 
 
 # ------------------------------------------------------------------------------------------------ extend-split
+def extra_queries(rec, probe, sa, op, f, comps, dom, a, b, rng, int_which, val_which, do_weights=True):
+    """catalogue a / c / d / i on the final state of a history:
+    a. every query twice on the same object, same answer; queries do not modify the stored combined result;
+    c. the caller's point list is reused and overwritten in place between two calls (no memoisation by identity), the
+       returned array is modified by the caller before the next call (no aliasing of internal state), the implementation
+       does not modify its arguments (point list, domain arrays);
+    d. other public routes to the same quantities: interpolate_grid (tensor grid of points), get_points_and_weights
+       (combined quadrature rule: sum_i w_i u(x_i) must be the exact integral);
+    i. the object's own combined grid points fed back into __call__."""
+    from sparseSpACE.Utils import get_cross_product_list
+    dim = len(dom)
+    try:
+        with quiet():
+            r0 = np.array(op.get_result(), dtype=float)
+            L = rand_points(rng, dom, 4)
+            L_before = list(L)
+            v1 = np.asarray(sa(L), dtype=float)
+            v1_copy = v1.copy()
+            args_ok = (L == L_before)
+            returned = sa(L)
+            try:
+                np.asarray(returned)[...] = 7.5       # the caller scribbles over the returned values
+            except Exception:
+                pass
+            v1b = np.asarray(sa(L), dtype=float)
+            L2 = rand_points(rng, dom, 4)
+            L[:] = L2                                  # same list object, new contents
+            v2 = np.asarray(sa(L), dtype=float)
+            coords = [sorted(set(dom[d][0] + (dom[d][1] - dom[d][0]) * rng.randint(0, 32) / 32 for _ in range(3))) for d in range(dim)]
+            gv = np.asarray(sa.interpolate_grid(coords), dtype=float)
+            gpts = get_cross_product_list(coords)
+            if do_weights:
+                pw = sa.get_points_and_weights()
+                P = np.array([tuple(x) for x in pw[0]], dtype=float).reshape(-1, dim)
+                W = np.array(pw[1], dtype=float)
+                F = f.eval_vectorized(P)
+                quad = np.concatenate([[0.0], (W[:, None] * F[:, 1:]).sum(axis=0)])
+                own = [tuple(float(x) for x in P[i]) for i in rng.sample(range(len(P)), min(4, len(P)))] if len(P) else []
+                vown = np.asarray(sa(own), dtype=float) if own else np.zeros((0, f.output_length()))
+            r1 = np.array(op.get_result(), dtype=float)
+    except Exception as e:
+        import traceback
+        where = traceback.extract_tb(e.__traceback__)[-1]
+        rec.violation(probe.split("-")[0] + "-exception", "exception", {"exception": repr(e)[:300], "where": "queries %s:%d" % (where.filename.split("/")[-1], where.lineno)},
+                      {"exception": type(e).__name__})
+        return
+    rec.ctx.count("extra_query_blocks")
+    oracle_values(rec, probe, "call", L_before, v1_copy, comps, dom, val_which)
+    if not args_ok or [float(x) for x in a] != [float(d[0]) for d in dom] or [float(x) for x in b] != [float(d[1]) for d in dom]:
+        rec.violation(probe, "arguments-modified", {"points_unchanged": args_ok, "a": [float(x) for x in a], "b": [float(x) for x in b]})
+    if not np.array_equal(v1b, v1_copy):
+        rec.violation(probe, "repeated-call-differs", {"first": v1_copy[:2].tolist(), "again_after_caller_modified_returned_array": v1b[:2].tolist()})
+    oracle_values(rec, probe, "call-same-list-new-points", L2, v2, comps, dom, val_which)
+    oracle_values(rec, probe, "interpolate_grid", gpts, gv, comps, dom, val_which)
+    if do_weights:
+        oracle_integrals_subset(rec, probe, "get_points_and_weights", quad, comps, dom, int_which if int_which is not None else set(range(len(comps))))
+        oracle_values(rec, probe, "call-at-own-grid-points", own, vown, comps, dom, val_which)
+    if not np.array_equal(r0, r1):
+        rec.violation(probe, "query-modified-result", {"before": r0[:4].tolist(), "after": r1[:4].tolist()})
+
+
+def run_sibling(ctx, drv, case):
+    """catalogue b: another scheme object (other configuration, often another strategy class) is created and does a
+    complete small history while this one is in the middle of its own; everything it finds is reported with the PARENT
+    case (the process history is part of the replay)"""
+    sub = case["sibling"]
+    ctx.count("sibling_runs")
+    RUNNERS[sub["strategy"] if sub.get("family") not in ("multi", "grid") else "es"](ctx, drv, sub, report_case=case)
+
+
 def finish_with_reevaluation(rec, probe, sa, op, comps, dom, orig_refine):
     """the adaptive run was interrupted right after an evaluation: finish it through the public API with a tolerance that
     is met immediately; with reevaluate_at_end=True the returned [3] comes from evaluate_final_combi(); then call
@@ -693,7 +850,9 @@ def gen_es_case(ctx, thorough):
     lmin, lmax = r.choice(LEVELS)
     if dim == 3 and lmax - lmin > 1:
         lmin, lmax = r.choice([(1, 2), (2, 3)])
-    return {"strategy": "es", "dim": dim, "lmin": lmin, "lmax": lmax, "dom": [list(r.choice(DOMAINS)) for _ in range(dim)],
+    if thorough and r.random() < 0.04:
+        dim, lmin, lmax = 4, 1, 2
+    case = {"strategy": "es", "dim": dim, "lmin": lmin, "lmax": lmax, "dom": [list(r.choice(DOMAINS)) for _ in range(dim)],
             "version": 0, "automatic_extend_split": r.random() < 0.4, "split_single_dim": r.random() < 0.35,
             "before_extend": r.randint(0, 2), "estimator": r.choice(["scripted", "scripted", "default"]),
             "seed": r.randrange(10 ** 9), "power": r.choice([1, 3, 6]), "rounds": r.randint(2, 4 if not thorough else 6),
@@ -701,6 +860,7 @@ def gen_es_case(ctx, thorough):
             # recalculate_frequently=True with refinements_for_recalculate lowered to this value (None: off);
             # reeval: finish with continue_adaptive_refinement(reevaluate_at_end=True) + evaluate_final_combi()
             "recalc": r.choice([None, None, 1, 2, 3]), "reeval": r.random() < 0.6}
+    return harden_options(r, case, "es", thorough)
 
 
 def gen_esmulti_case(ctx, thorough):
@@ -765,7 +925,7 @@ def gen_esgrid_case(ctx, thorough):
     return case
 
 
-def run_es(ctx, drv, case):
+def run_es(ctx, drv, case, report_case=None):
     from sparseSpACE.Grid import TrapezoidalGrid
     from sparseSpACE.GridOperation import Integration
     from sparseSpACE.ErrorCalculator import ErrorCalculatorExtendSplit
@@ -777,21 +937,26 @@ def run_es(ctx, drv, case):
     tags = {"strategy": "es", "version": case["version"], "automatic_extend_split": case["automatic_extend_split"],
             "split_single_dim": case["split_single_dim"], "before_extend": case["before_extend"], "estimator": case["estimator"],
             "grid": gkind}
-    rec = Recorder(ctx, case, tags)
+    rec = Recorder(ctx, report_case or case, tags)
     comps = gen_multilinear_comps(rng, dim, 3, 2)
     f = make_function_class()(dom, comps, [dom[d][0] + (dom[d][1] - dom[d][0]) * case["peak"][d] for d in range(dim)], case["sharp"],
                               sym=case.get("sym"))
     a = np.array([x[0] for x in dom])
     b = np.array([x[1] for x in dom])
-    ok = drv.ask("dw %d %d %d std" % (dim, lmin, lmax)) == "ok"
-    for d in range(dim):
-        ok = drv.ask("dom %d %s %s" % (d, frac_str(dom[d][0]), frac_str(dom[d][1]))) == "ok" and ok
-    if not ok:
+
+    def setup_driver():
+        ok = drv.ask("dw %d %d %d std" % (dim, lmin, lmax)) == "ok"
+        for d in range(dim):
+            ok = drv.ask("dom %d %s %s" % (d, frac_str(dom[d][0]), frac_str(dom[d][1]))) == "ok" and ok
+        return ok
+    if not setup_driver():
         rec.corr("driver-setup", {"impl": "ok", "model": "rejected"})
         return rec
     snapshots = []          # (result at the moment a stop would return it, refinement state) before every refine()
     act_of = {}             # id(area) -> active (coarsened level, coefficient) list at the time of its evaluation
     with quiet():
+        if case.get("toggle") == "nocache":
+            f.deactivate_caching()
         grid = make_local_grid(case.get("grid", "trapezoid"), a, b)
         op = Integration(f, grid=grid, dim=dim, log_level=50, print_level=50)
         Scripted = make_scripted_class()
@@ -827,10 +992,16 @@ def run_es(ctx, drv, case):
         areas = list(sa.refinement.get_objects())
         snapshots.append((np.array(op.get_result(), dtype=float), [(np.array(A.start, dtype=float), np.array(A.end, dtype=float), list(act_of.get(id(A), (A, []))[1]), A) for A in areas]))
 
+    round_limit = [case["rounds"]]
+
     def refine_hook():
         snapshot()
-        if rounds_done[0] >= case["rounds"]:
+        if rounds_done[0] >= round_limit[0]:
             raise _Stop()
+        if case.get("sibling") and rounds_done[0] == case.get("sibling_at") and report_case is None:
+            run_sibling(ctx, drv, case)
+        if case.get("toggle") == "reset" and rounds_done[0] >= 1:
+            f.reset_dictionary()
         rounds_done[0] += 1
         if hasattr(ec, "round"):
             ec.round = rounds_done[0]
@@ -858,6 +1029,21 @@ def run_es(ctx, drv, case):
         rec.violation("es-exception", "exception", {"exception": repr(e)[:300], "where": "%s:%d" % (where.filename.split("/")[-1], where.lineno), "round": rounds_done[0]},
                       {"exception": type(e).__name__})
         return rec
+    if case.get("resume"):
+        # catalogue h: one more round through performSpatiallyAdaptiv(refinement_container=<own container>)
+        try:
+            with quiet():
+                round_limit[0] += 1
+                try:
+                    sa.performSpatiallyAdaptiv(lmin, lmax, ec, tol=-1.0, print_output=False, refinement_container=sa.refinement,
+                                               recalculate_frequently=bool(case.get("recalc")))
+                except _Stop:
+                    pass
+            ctx.count("es_resumes")
+        except Exception as e:
+            rec.violation("es-exception", "exception", {"exception": repr(e)[:300], "where": "resume with refinement_container"}, {"exception": type(e).__name__})
+            return rec
+    setup_driver()
     for stop, (result, areas) in enumerate(snapshots):
         ctx.count("es_stops")
         oracle_integrals(rec, "es-exact", stop, result, comps, dom)
@@ -881,7 +1067,7 @@ def run_es(ctx, drv, case):
                     return rec
         for k, terms in enumerate(comps):
             m, err = model_sum(drv, "esint", terms)
-            if m is None or not cmp_float_frac(result[k + 1], m):
+            if m is None or not cmp_float_frac(result[k + 1], m, int_floor(dom)):
                 rec.corr("es/combined-integral", {"stop": stop, "terms": terms_str(terms), "impl": float(result[k + 1]), "model": frac_str(m) if m is not None else err})
                 break
         if not rec.ok:
@@ -897,8 +1083,27 @@ def run_es(ctx, drv, case):
             oracle_values(rec, "es-exact", len(snapshots) - 1, pts, vals, comps, dom)
         except Exception as e:
             rec.violation("es-exception", "exception", {"exception": repr(e)[:300], "where": "__call__"}, {"exception": type(e).__name__})
+    if rec.ok and case.get("queries") and gkind == "trapezoid":
+        sa.refine = orig_refine
+        extra_queries(rec, "es-exact", sa, op, f, comps, dom, a, b, rng, None, None)
     if rec.ok and case.get("reeval"):
         finish_with_reevaluation(rec, "es-exact", sa, op, comps, dom, orig_refine)
+    if rec.ok and case.get("rerun"):
+        try:
+            with quiet():
+                sa.refine = refine_hook
+                rounds_done[0] = 0
+                round_limit[0] = 1
+                if hasattr(ec, "round"):
+                    ec.round = 0
+                try:
+                    sa.performSpatiallyAdaptiv(lmin, lmax, ec, tol=-1.0, print_output=False)
+                except _Stop:
+                    pass
+            ctx.count("es_second_runs")
+            oracle_integrals(rec, "es-exact", "second-run-on-same-object", np.array(op.get_result(), dtype=float), comps, dom)
+        except Exception as e:
+            rec.violation("es-exception", "exception", {"exception": repr(e)[:300], "where": "second run on the same object"}, {"exception": type(e).__name__})
     if case.get("recalc"):
         ctx.count("es_recalculate_frequently")
     ctx.count("es_auto%d_single%d_before%d" % (case["automatic_extend_split"], case["split_single_dim"], case["before_extend"]))
@@ -960,13 +1165,14 @@ def gen_cell_case(ctx, thorough):
     r = ctx.rng
     dim = r.choice([2, 2, 3])
     l = r.choice([1, 2, 2, 3]) if dim == 2 else r.choice([1, 2])
-    return {"strategy": "cell", "dim": dim, "lmin": l, "lmax": l, "dom": [list(r.choice(DOMAINS)) for _ in range(dim)],
+    case = {"strategy": "cell", "dim": dim, "lmin": l, "lmax": l, "dom": [list(r.choice(DOMAINS)) for _ in range(dim)],
             "estimator": r.choice(["scripted", "scripted", "default"]), "seed": r.randrange(10 ** 9), "power": r.choice([1, 3, 6]),
             "rounds": r.randint(2, 5 if not thorough else 8), "peak": [r.randint(1, 15) / 16 for _ in range(dim)], "sharp": r.choice([4, 40, 400]),
             "recalc": r.choice([None, None, 1, 3]), "reeval": r.random() < 0.7}
+    return harden_options(r, case, "cell", thorough)
 
 
-def run_cell(ctx, drv, case):
+def run_cell(ctx, drv, case, report_case=None):
     from sparseSpACE.Grid import TrapezoidalGrid
     from sparseSpACE.GridOperation import Integration
     from sparseSpACE.ErrorCalculator import ErrorCalculatorSurplusCell
@@ -975,20 +1181,23 @@ def run_cell(ctx, drv, case):
     dom = [tuple(x) for x in case["dom"]]
     rng = random.Random(case["seed"])
     tags = {"strategy": "cell", "estimator": case["estimator"], "lmin": lmin}
-    rec = Recorder(ctx, case, tags)
+    rec = Recorder(ctx, report_case or case, tags)
     comps = gen_multilinear_comps(rng, dim, 3, 2)
     f = make_function_class()(dom, comps, [dom[d][0] + (dom[d][1] - dom[d][0]) * case["peak"][d] for d in range(dim)], case["sharp"])
     a = np.array([x[0] for x in dom])
     b = np.array([x[1] for x in dom])
-    ok = drv.ask("dw %d %d %d std" % (dim, lmin, lmax)) == "ok"
-    for d in range(dim):
-        ok = drv.ask("dom %d %s %s" % (d, frac_str(dom[d][0]), frac_str(dom[d][1]))) == "ok" and ok
-    ok = drv.ask("cellmin " + vec_str([lmin] * dim)) == "ok" and ok
-    if not ok:
+    def setup_driver():
+        ok = drv.ask("dw %d %d %d std" % (dim, lmin, lmax)) == "ok"
+        for d in range(dim):
+            ok = drv.ask("dom %d %s %s" % (d, frac_str(dom[d][0]), frac_str(dom[d][1]))) == "ok" and ok
+        return drv.ask("cellmin " + vec_str([lmin] * dim)) == "ok" and ok
+    if not setup_driver():
         rec.corr("driver-setup", {"impl": "ok", "model": "rejected"})
         return rec
     snapshots = []
     with quiet():
+        if case.get("toggle") == "nocache":
+            f.deactivate_caching()
         grid = TrapezoidalGrid(a, b, boundary=True)
         op = Integration(f, grid=grid, dim=dim, log_level=50, print_level=50)
         if case["estimator"] == "scripted":
@@ -1005,12 +1214,17 @@ def run_cell(ctx, drv, case):
     def refine_hook():
         cells = list(sa.refinement.get_objects())
         snapshots.append((np.array(op.get_result(), dtype=float), [(np.array(c.start, dtype=float), np.array(c.end, dtype=float), [int(x) for x in c.levelvec]) for c in cells]))
-        if rounds_done[0] >= case["rounds"]:
+        if rounds_done[0] >= round_limit[0]:
             raise _Stop()
+        if case.get("sibling") and rounds_done[0] == case.get("sibling_at") and report_case is None:
+            run_sibling(ctx, drv, case)
+        if case.get("toggle") == "reset" and rounds_done[0] >= 1:
+            f.reset_dictionary()
         rounds_done[0] += 1
         if hasattr(ec, "round"):
             ec.round = rounds_done[0]
         orig_refine()
+    round_limit = [case["rounds"]]
     sa.refine = refine_hook
     try:
         with quiet():
@@ -1020,12 +1234,21 @@ def run_cell(ctx, drv, case):
                 sa.performSpatiallyAdaptiv(lmin, lmax, ec, tol=-1.0, print_output=False, recalculate_frequently=bool(case.get("recalc")))
             except _Stop:
                 pass
+            if case.get("resume"):
+                round_limit[0] += 1
+                try:
+                    sa.performSpatiallyAdaptiv(lmin, lmax, ec, tol=-1.0, print_output=False, refinement_container=sa.refinement,
+                                               recalculate_frequently=bool(case.get("recalc")))
+                except _Stop:
+                    pass
+                ctx.count("cell_resumes")
     except Exception as e:
         import traceback
         where = traceback.extract_tb(e.__traceback__)[-1]
         rec.violation("cell-exception", "exception", {"exception": repr(e)[:300], "where": "%s:%d" % (where.filename.split("/")[-1], where.lineno), "round": rounds_done[0]},
                       {"exception": type(e).__name__})
         return rec
+    setup_driver()
     for stop, (result, cells) in enumerate(snapshots):
         ctx.count("cell_stops")
         ctx.count("cell_cells", len(cells))
@@ -1037,13 +1260,31 @@ def run_cell(ctx, drv, case):
                 return rec
         for k, terms in enumerate(comps):
             m, err = model_sum(drv, "cellint", terms)
-            if m is None or not cmp_float_frac(result[k + 1], m):
+            if m is None or not cmp_float_frac(result[k + 1], m, int_floor(dom)):
                 rec.corr("cell/combined-integral", {"stop": stop, "terms": terms_str(terms), "impl": float(result[k + 1]), "model": frac_str(m) if m is not None else err})
                 break
         if not rec.ok:
             break
     if rec.ok and case.get("reeval"):
         finish_with_reevaluation(rec, "cell-exact", sa, op, comps, dom, orig_refine)
+    if rec.ok and case.get("rerun"):
+        # catalogue h: a second performSpatiallyAdaptiv on the same object (own probe: the unchanged code keeps the cells of
+        # the first run in self.cell_dict, the second run creates no cells and returns 0 -- proposed known finding / fix)
+        try:
+            with quiet():
+                sa.refine = refine_hook
+                rounds_done[0] = 0
+                round_limit[0] = 1
+                if hasattr(ec, "round"):
+                    ec.round = 0
+                try:
+                    sa.performSpatiallyAdaptiv(lmin, lmax, ec, tol=-1.0, print_output=False)
+                except _Stop:
+                    pass
+            ctx.count("cell_second_runs")
+            oracle_integrals(rec, "cell-rerun-exact", "second-run-on-same-object", np.array(op.get_result(), dtype=float), comps, dom)
+        except Exception as e:
+            rec.violation("cell-exception", "exception", {"exception": repr(e)[:300], "where": "second run on the same object"}, {"exception": type(e).__name__})
     if case.get("recalc"):
         ctx.count("cell_recalculate_frequently")
     ctx.count("cell_est_" + case["estimator"])
@@ -1112,6 +1353,45 @@ def run_unit_1d(ctx, drv, n):
 
 
 # ------------------------------------------------------------------------------------------------ entry points
+class CaseTimeout(BaseException):
+    pass
+
+
+@contextlib.contextmanager
+def case_watchdog(seconds):
+    """wall-clock limit for one history (SIGALRM in the main thread; no-op where signals are unavailable)"""
+    import signal
+
+    def handler(signum, frame):
+        raise CaseTimeout()
+    try:
+        old = signal.signal(signal.SIGALRM, handler)
+        signal.setitimer(signal.ITIMER_REAL, seconds)
+    except (ValueError, AttributeError):
+        yield
+        return
+    try:
+        yield
+    finally:
+        signal.setitimer(signal.ITIMER_REAL, 0)
+        signal.signal(signal.SIGALRM, old)
+
+
+def classify_escaped_exception(ctx, strat, case, e):
+    """catalogue k: an exception that escapes a runner and was raised inside the implementation under test is a violation
+    with the replayable case; only an exception raised by the harness itself is a harness problem"""
+    import traceback
+    frames = traceback.extract_tb(e.__traceback__)
+    inner = frames[-1] if frames else None
+    in_impl = any("sparseSpACE" in (fr_.filename or "") for fr_ in frames[-3:])
+    if in_impl:
+        ctx.violation(("dw" if strat.startswith("dw") else ("cell" if strat == "cell" else "es")) + "-exception",
+                      {"strategy": strat, "exception": type(e).__name__, "kind": "escaped"}, case,
+                      {"exception": repr(e)[:300], "where": "%s:%d" % (inner.filename.split("/")[-1], inner.lineno) if inner else "?"})
+    else:
+        ctx.corr_break("C04/harness-exception", case, traceback.format_exc()[-1500:])
+
+
 RUNNERS = {"dw": run_dw, "es": run_es, "cell": run_cell, "escont": run_escont, "esmulti": run_es, "esgrid": run_es, "dwcorner": run_dw, "dwraise": run_dw}
 GENERATORS = {"dw": gen_dw_case, "es": gen_es_case, "cell": gen_cell_case, "escont": gen_escont_case, "esmulti": gen_esmulti_case, "esgrid": gen_esgrid_case, "dwcorner": gen_dwcorner_case, "dwraise": gen_dwraise_case}
 
@@ -1135,6 +1415,8 @@ def run(ctx):
     drv = ctx.driver("drv_c04")
     import dimwise_gen
     dimwise_gen.run(ctx, None, "C04")      # translator tie of the dimension-wise logic (see dimwise_gen.py); this harness is the search
+    import globaltrap_gen
+    globaltrap_gen.run(ctx)      # translator tie of GlobalTrapezoidalGrid.compute_weights (see globaltrap_gen.py); tie only
     run_unit_1d(ctx, drv, 40 if not thorough else 300)
     # corpus: witnesses of the known findings (and any minimised past failure) always run first
     import glob
@@ -1155,15 +1437,29 @@ def run(ctx):
     while ctx.time_left(budget) > 0 and k < (400 if not thorough else 6000):
         strat = mix[k % len(mix)]
         case = GENERATORS[strat](ctx, thorough)
+        # catalogue b: the process history is part of the replay -- a reported violation carries the list of the earlier
+        # cases of the same strategy class of this process (class-level / module-level state of the library survives
+        # between scheme objects); replay() runs them first
+        group = "cell" if strat == "cell" else ("dw" if strat.startswith("dw") else "es")
+        _PROCESS_HISTORY["current_group"] = group
         try:
-            rec = RUNNERS[strat](ctx, drv, case)
-        except Exception:
+            with case_watchdog(30 if not thorough else 90):
+                rec = RUNNERS[strat](ctx, drv, case)
+        except CaseTimeout:
+            # keeps the time budget; counted, never silently dropped (a genuine endless loop shows up as a growing count)
+            ctx.count("case_timeouts")
+            ctx.count("case_timeouts_" + strat)
+            drv.ask("dw 1 0 0 std")
+            k += 1
+            continue
+        except Exception as e:
             import traceback
-            ctx.corr_break("C04/harness-exception", case, traceback.format_exc()[-1500:])
+            classify_escaped_exception(ctx, strat, case, e)
             k += 1
             continue
         ctx.count("histories_" + strat)
         ctx.case(case, nontrivial=True, sample=case if k < 3 else None)
+        _PROCESS_HISTORY[group].append(case)
         k += 1
         if len(ctx.violations) + len(ctx.corr_breaks) >= ctx.max_reports * 4:
             break
@@ -1176,6 +1472,16 @@ def replay(ctx, rp):
     if strat not in RUNNERS:
         print("replay: unknown strategy %r" % strat)
         return 1
+    if case.get("process_history"):
+        import common
+        scratch = common.Ctx(ctx.prop, ctx.tier, ctx.seed)
+        for pre in case["process_history"]:
+            try:
+                RUNNERS[pre.get("strategy")](scratch, drv, pre)
+            except Exception as e:
+                print("replay: an earlier case of the process history raised %r" % (e,))
+        print("replay: %d earlier case(s) of the process history run first" % len(case["process_history"]))
+        case = {kk: vv for kk, vv in case.items() if kk != "process_history"}
     rec = RUNNERS[strat](ctx, drv, case)
     print("replay: %s" % ("property holds and model agrees on this case" if rec.ok else "REPRODUCED"))
     for v in ctx.violations[:3]:
